@@ -262,15 +262,17 @@ def execute(plan):
                 refv = H[nH_abs - 1 - p]
                 if crit == "relative":
                     if refv[1] == 0:
-                        unspecified_at = epoch
-                        break
+                        # division by zero: the deviation is infinite or not a number, never "below the tolerance";
+                        # the library may raise here, but it must not stop here
+                        unspecified_at = epoch if unspecified_at is None else unspecified_at
+                        continue
                     dev = abs((refv[1] - curv[1]) / refv[1])
                 elif crit == "absolute":
                     dev = abs(refv[1] - curv[1])
                 else:
                     if refv[2] is None or not (refv[2] > 0):
-                        unspecified_at = epoch
-                        break
+                        unspecified_at = epoch if unspecified_at is None else unspecified_at
+                        continue
                     dev = abs(refv[1] - curv[1]) / math.sqrt(refv[2])
                 if dev < tol:
                     ref_stop = epoch
@@ -279,11 +281,10 @@ def execute(plan):
             raised = info["raised"]
             if unspecified_at is not None:
                 run.probes["unspecified_zero_denominator"] += 1
-                # judge only what happened strictly before the unspecified check
-                if raised is None and last_epoch_run is not None and last_epoch_run < unspecified_at and not (ext_fired and last_epoch_run == e_ext):
-                    run.violate("18-early", f"run {ri}: training stopped at epoch {last_epoch_run}, before any check could have met the rule", **d2)
-                outcomes.append("unspecified")
-                break  # what follows an unspecified check is not judged
+                if raised is not None and type(raised).__name__ in ("ZeroDivisionError", "FloatingPointError") and (ref_stop is None or ref_stop > unspecified_at):
+                    # the library refused to divide by zero at that check: accepted, nothing after it is judged
+                    outcomes.append("unspecified-raised")
+                    break
             if raised is not None:
                 run.lib_exception(raised, "fit with early stopping", **d2)
                 outcomes.append("raised")
